@@ -66,7 +66,13 @@ func FillResourceStore(a *App, store db.Db) (skipped []string, err error) {
 	sort.Strings(syms)
 	for _, n := range syms {
 		f := a.Funcs[n]
-		put(db.DATATYPE_STATICLOAD, nil, n, []byte(f.Fixed))
+		// every other static load is kept under the legacy name <sym>.txt (what the old FsResource wrote, and what
+		// DbResource still falls back to), with its translations
+		name := n
+		if vk.Hash64("legacy-name", n)%2 == 0 {
+			name = n + ".txt"
+		}
+		put(db.DATATYPE_STATICLOAD, nil, name, []byte(f.Fixed))
 		codes := make([]string, 0, len(f.Trans))
 		for code := range f.Trans {
 			codes = append(codes, code)
@@ -74,7 +80,7 @@ func FillResourceStore(a *App, store db.Db) (skipped []string, err error) {
 		sort.Strings(codes)
 		for _, code := range codes {
 			if ln, lerr := lang.LanguageFromCode(code); lerr == nil && ln.Code == code {
-				put(db.DATATYPE_STATICLOAD, &ln, n, []byte(f.Trans[code]))
+				put(db.DATATYPE_STATICLOAD, &ln, name, []byte(f.Trans[code]))
 			}
 		}
 	}
